@@ -4,6 +4,7 @@ import importlib
 
 _MODULES = {
     'kernel': 'dst.kernel',
+    'steps': 'dst.steps',
 }
 
 # property -> list of (profile, share of the run budget)
@@ -11,8 +12,9 @@ PROPERTY_PROFILES = {
     'C01': [('kernel', 1.0)],
     'C02': [('kernel', 1.0)],
     'C03': [('kernel', 1.0)],
-    'C04': [('kernel', 1.0)],
-    'C12': [('kernel', 1.0)],
+    'C04': [('kernel', 0.7), ('steps', 0.3)],
+    'C05': [('steps', 1.0)],
+    'C12': [('kernel', 0.8), ('steps', 0.2)],
 }
 
 
